@@ -151,6 +151,45 @@ def run(ctx):
     c = prog.crate(C)
     from .c15 import prealloc_cap_rule
     prealloc_cap_rule(ctx, [c], "C17", floor=2)
+    # random access: the n-th record starts n * header.record_size bytes after the header, whatever the schema says about fields
+    R_stride = ctx.rule("C17.random-access-stride-is-record-size", "every record position computed as `index * stride` for a seek / set_position uses stride = header.record_size", floor=1)
+    for f in c.fn_list:
+        if not f.hir or f.kind == "Closure" and False or "::tests::" in f.path or not re.search(r"::(lazy|parallel|mmap|parser|cache)::", f.path):
+            continue
+        body = f.hir["body"]
+        root_body = body
+        for x in hirq.walk(body):
+            tgt = None
+            if x.get("k") == "mcall" and x["m"] == "set_position" and x.get("args"):
+                tgt = x["args"][0]
+            elif x.get("k") == "call" and (x.get("fn") or "").endswith("SeekFrom::Start") and x.get("args"):
+                tgt = x["args"][0]
+            if tgt is None:
+                continue
+            # expand single-assignment locals inside the position expression
+            exprs = [tgt]
+            seen_l = set()
+            while exprs:
+                e = exprs.pop()
+                for y in hirq.walk(e):
+                    if y.get("k") == "path" and "local" in y["res"] and y["res"]["local"] not in seen_l:
+                        seen_l.add(y["res"]["local"])
+                        exprs += [v for v in hirq.local_values(root_body, y["res"]["local"]) if v is not None]
+                    if y.get("k") == "bin" and y["op"] == "*":
+                        sides = [y["l"], y["r"]]
+                        idx_side = [sd for sd in sides if any(z.get("k") == "path" and re.fullmatch(r"(index|idx|i|record_index|n|row)", z["res"].get("local") or "") for z in hirq.walk(sd))]
+                        if len(idx_side) != 1:
+                            continue
+                        other = sides[1] if idx_side[0] is sides[0] else sides[0]
+                        leaves = hirq.value_leaves(root_body, other)
+                        names = sorted({(v.get("name") if v is not None and v.get("k") == "field" else ("?" if v is None else hirq.render(v)[:40])) for v in leaves})
+                        inst = {"fn": f.path.split("::")[-1], "line": y.get("ln"), "stride": names}
+                        if names == ["record_size"]:
+                            ctx.ok(R_stride, inst)
+                        else:
+                            ctx.bad(R_stride, "%s|stride" % f.path.split("::")[-2:][0] + "::" + f.path.split("::")[-1], "%s:%d" % (f.file, y.get("ln") or 0), "record position uses stride `%s`" % ", ".join(names),
+                                    "for schemas with 8/16-bit fields (record_size != 4 * field_count) record n is read from the wrong place: another record's bytes, or past the end")
+
     R_w = ctx.rule("C17.field-width-tables-agree", "each FieldType variant has the same width in size(), the decoder, the encoder and the default-value arm", floor=4)
     R_h = ctx.rule("C17.header-write-equals-read", "header fields are written in the order and widths they are read", floor=1)
     R_fc = ctx.rule("C17.field-count-rule-agrees", "the writer's field_count counts array elements exactly as Schema::validate does", floor=1)
@@ -417,6 +456,27 @@ def run(ctx):
         else:
             ctx.bad(R_cov, "build_string_block|missing-%s" % sorted(need - bvars)[0], bsb.where, "write_value writes string references inside %s, but the string-block builder only visits %s" % (sorted(need), sorted(bvars)),
                     "strings held in array fields never reach the new string block: write_value misses them in the offset map and writes offset 0 — every array string parses back empty")
+
+    # ... and visits them unconditionally: an arm guard on the string-carrying variants skips the strings the guard rejects, while
+    # write_value still writes a reference for them (and falls back to offset 0 when the lookup misses)
+    R_ung = ctx.rule("C17.string-collector-arms-are-unguarded", "in the string-block builder (and the helpers it delegates to) no match arm for a string-carrying Value variant has a guard", floor=1)
+    if bsb is not None:
+        coll = [bsb] + [g for g in c.fn_list if g.hir and g.kind != "Closure" and norm(g.path).startswith("wow_cdbc::writer::") and re.search(r"collect|string", g.path.split("::")[-1]) and g is not bsb]
+        n_arms = 0
+        for g in coll:
+            for m_ in hirq.find(g.hir["body"], "match"):
+                for a_ in m_["arms"]:
+                    ctor = hirq.pat_ctor(a_["pat"]) or ""
+                    if not re.search(r"::Value::(StringRef|String|Array)$", ctor):
+                        continue
+                    n_arms += 1
+                    if a_.get("guard") is not None:
+                        ctx.bad(R_ung, "%s|guarded-%s" % (g.path.split("::")[-1], ctor.split("::")[-1]), "%s:%d" % (g.file, a_.get("ln") or m_.get("ln") or 0), "the %s arm only runs `if %s`" % (ctor.split("::")[-1], hirq.render(a_["guard"])[:60]),
+                                "values the guard rejects are never added to the new string block, yet write_value still emits a reference for them (offset 0 on a lookup miss): those strings read back as a different string")
+                    else:
+                        ctx.ok(R_ung, {"fn": g.path.split("::")[-1], "arm": ctor.split("::")[-1]})
+        if n_arms == 0:
+            ctx.bad(R_ung, "collector|no-arms", bsb.where, "no match arm on a string-carrying Value variant found in the collector", "shape changed")
 
     # interning
     bs = fns.get("wow_cdbc::writer::DbcWriter::build_string_block")
